@@ -121,6 +121,8 @@ Proof.
   destruct (s * 1000000000 + n >? s' * 1000000000 + n') eqn:E4; cbn; try reflexivity; lia.
 Qed.
 
+(* ---- DATE_DIFF: wholeUnits is the exact floor quotient of the nanosecond
+   count by the unit *)
 Lemma whole_units_exact : forall sec nsec u, 0 <= sec <= 2 ^ 53 -> 0 <= nsec < 1000000000 ->
   whole_units sec nsec (unit_ns u) = (sec * 1000000000 + nsec) / unit_ns u.
 Proof.
@@ -168,6 +170,9 @@ Proof.
   - rewrite whole_units_exact by (rewrite ?pow53; lia). f_equal. lia.
 Qed.
 
+(* DATE_DIFF of ANY two instants (not only a date and what DATE_ADD made of
+   it) is the whole number of units in the absolute difference; 2^53 seconds
+   are about 285 million years *)
 Theorem date_diff_exact : forall a b u, inst_norm a -> inst_norm b ->
   Z.abs (fst a - fst b) <= 2 ^ 53 ->
   date_diff a b u = Z.abs (inst_ns a - inst_ns b) / unit_ns u.
@@ -181,6 +186,8 @@ Proof.
     + rewrite split_exact by (try assumption; lia). rewrite Z.abs_neq by lia. f_equal. lia.
 Qed.
 
+(* DATE_DIFF(t, DATE_ADD(t, n, u), u) = |n|: the implementation subtracts the
+   earlier instant from the later one *)
 Theorem date_diff_abs_amount : forall t n u, inst_norm t -> diff_guard n u ->
   date_diff t (date_add t n u) u = Z.abs n.
 Proof.
@@ -197,12 +204,14 @@ Proof.
   apply Z.div_mul. lia.
 Qed.
 
+(* so for non-negative amounts DATE_DIFF returns the amount itself *)
 Corollary date_diff_amount : forall t n u, inst_norm t -> diff_guard n u -> 0 <= n ->
   date_diff t (date_add t n u) u = n.
 Proof.
   intros t n u Hn G Hpos. rewrite date_diff_abs_amount by assumption. apply Z.abs_eq. exact Hpos.
 Qed.
 
+(* the whole range of the property, no further guard *)
 Lemma in_range_guard : forall n u, - 1000000 <= n <= 1000000 -> diff_guard n u.
 Proof.
   intros n u H. unfold diff_guard, amount_ok. rewrite pow32, pow63. split; [lia|].
@@ -213,6 +222,7 @@ Theorem date_diff_amount_in_range : forall t n u, inst_norm t -> 0 <= n <= 10000
   date_diff t (date_add t n u) u = n.
 Proof. intros t n u Hn H. apply date_diff_amount; [assumption| apply in_range_guard; lia | lia]. Qed.
 
+(* a negative amount comes back as its absolute value *)
 Theorem date_diff_refuted_sign :
   exists t n u, inst_norm t /\ diff_guard n u /\ date_diff t (date_add t n u) u <> n.
 Proof.
@@ -220,6 +230,7 @@ Proof.
   split; [apply in_range_guard; lia|]. vm_compute. discriminate.
 Qed.
 
+(* beyond 292 years, at the ends of the years 1..9999, with a borrow *)
 Lemma date_diff_large_values :
   date_diff (0, 0) (date_add (0, 0) 1000000 UDay) UDay = 1000000
   /\ date_diff (-62135596800, 999999999) (date_add (-62135596800, 999999999) 1000000 UWeek) UWeek = 1000000
